@@ -85,7 +85,7 @@ def methodLambda (cfg : Cfg) (m : IMethod) (cppClass : String) (methodSuffix : S
     caller := if m.isStatic then cppClass ++ "::" else "self->", cppName := m.toCpp,
     pyArgs := pyArgsOf m.args,
     doc := cfg.docs.map fun f => f cppClass m.toCpp (m.args.map (·.name)),
-    isPrint := m.name == "print" }
+    isPrint := m.name == "print" && !m.isStatic }
 
 /-- `_wrap_method` (methods and static methods of a class) -/
 def emitMethod (cfg : Cfg) (m : IMethod) (cppClass : String) (methodSuffix : String) : List ClassItem :=
@@ -143,9 +143,9 @@ def classStmt (cfg : Cfg) (c : IClass) : PyStmt :=
 def classEnums (c : IClass) : List PyStmt :=
   c.enums.map fun e => PyStmt.enum (c.toCpp ++ "::" ++ enumCpp [""] e.name) (lowerStr c.name) e.name e.enumerators true
 
-/-- `wrap_instantiated_class` + `wrap_enums` -/
+/-- `wrap_instantiated_class` + `wrap_enums` (an ignored class contributes nothing, its enums included) -/
 def emitClass (cfg : Cfg) (c : IClass) : List PyStmt :=
-  (if cfg.ignore.contains c.toCpp then [] else [classStmt cfg c]) ++ classEnums c
+  if cfg.ignore.contains c.toCpp then [] else classStmt cfg c :: classEnums c
 
 /-- `_add_namespaces('', namespaces)` -/
 def addNamespacesEmpty (namespaces : List String) : String :=
@@ -200,7 +200,7 @@ mutual
       | .decl fd =>
         let cpp := fd.toCpp
         ((if cfg.ignore.contains cpp then [] else [PyStmt.fwdCls cpp (moduleVar cfg fd.nsPath) fd.name]) ++ s2, i2)
-      | .var v => (PyStmt.var mv v.name (addNamespacesEmpty p) (v.default.getD v.name) :: s2, i2)
+      | .var v => (PyStmt.var mv v.name (addNamespacesEmpty p) v.name :: s2, i2)   -- bound to the variable itself (fix da698f3)
       | .enum e => (PyStmt.enum (enumCpp p e.name) (moduleVar cfg p) e.name e.enumerators false :: s2, i2)
       | .func _ => (s2, i2)
       | .fwd .. => (s2, i2)
